@@ -215,4 +215,33 @@ theorem tcomment_held (env : Env) (rest : Text) (h : ∀ c r, rest = c :: r → 
     · simp [normalise, ha, holdBack]
     · simp [normalise, atypical, holdBack]
 
+/-! ### `Spec.render`: from the bytes back to the text -/
+
+theorem encodeText_pairs (E : Codec) (t : Text) (file : Bytes) (h : encodeText E t = some file) :
+    ∃ pairs : List (Char × Bytes), file = (pairs.map (·.2)).flatten ∧ t = pairs.map (·.1) ∧ ∀ p ∈ pairs, E.encode p.1 = some p.2 := by
+  induction t generalizing file with
+  | nil => simp [encodeText] at h; exact ⟨[], by simp [h], rfl, by simp⟩
+  | cons c cs ih =>
+    simp only [encodeText] at h
+    cases hc : E.encode c with
+    | none => simp [hc] at h
+    | some b =>
+      cases hcs : encodeText E cs with
+      | none => simp [hc, hcs] at h
+      | some bs =>
+        simp [hc, hcs] at h
+        obtain ⟨pairs, h1, h2, h3⟩ := ih bs hcs
+        refine ⟨(c, b) :: pairs, by simp [← h, h1], by simp [h2], ?_⟩
+        intro p hp; simp at hp; rcases hp with rfl | hp
+        · exact hc
+        · exact h3 p hp
+
+theorem tail_held (env : Env) (hsp : env.isSpace = pyIsSpace) (t : TailSp) (ht : t.Valid) : Held env t.render := by
+  cases t with
+  | noise z => exact noise_held env hsp z ht
+  | comment rest => exact tcomment_held env rest ht.2 ht.1
+
+theorem normalise_of_not_atypical (l : Text) (h : atypical l = false) : normalise l = l := by
+  simp [normalise, h]
+
 end I18n.Lemmas.PoFile
